@@ -27,7 +27,7 @@ func (c11) Rule() string {
 
 var accessorDefaults = map[string]string{
 	"GetAllHints": "[]", "FlattenHints": "", "GetAllDetails": "[]", "FlattenDetails": "", "GetAllIssueLinks": "[]", "GetTelemetryKeys": "[]",
-	"GetDomain": "error domain: <none>", "GetContextTags": "", "HasAssertionFailure": "false", "IsAssertionFailure": "false",
+	"GetDomain": "error domain: <none>", "GetContextTags": "", "NotInDomain": "false false true false", "EnsureNotInDomain": "true true true", "HasAssertionFailure": "false", "IsAssertionFailure": "false",
 	"HasUnimplementedError": "false", "IsUnimplementedError": "false", "HasIssueLink": "false", "IsIssueLink": "false",
 	"GetHTTPCode": "-1", "GetGrpcCode": "Unknown", "IsPermission": "false", "IsExist": "false", "IsNotExist": "false", "IsTimeout": "false",
 	"GetOneLineSource": ":0::false",
